@@ -254,6 +254,17 @@ func (r *refReader) listBody(start int, kind, arrDims string) *refForm {
 
 func (r *refReader) mkSeq(kind string, kids []*cv) *cv {
 	switch kind {
+	case "cpx":
+		for _, k := range kids {
+			if k.k == "unspecified" {
+				return k
+			}
+		}
+		v := cvComplex(kids)
+		if v == nil {
+			panic(refErr("syntax"))
+		}
+		return v
 	case "vec":
 		return &cv{k: "vec", kids: kids}
 	case "arr2":
@@ -441,6 +452,12 @@ func (r *refReader) sharp(start int) *refForm {
 			n.Neg(n)
 		}
 		return &refForm{v: cvInt(n), end: r.i}
+	case 'c', 'C':
+		if 0 <= num || len(r.src) <= r.i || r.src[r.i] != '(' {
+			panic(refErr("syntax"))
+		}
+		r.i++
+		return r.listBody(start, "cpx", "")
 	case 'a', 'A':
 		if num != 2 || len(r.src) <= r.i || r.src[r.i] != '(' {
 			panic(refErr("syntax"))
